@@ -7,13 +7,14 @@ RSM_STUBS = ["lha_file_header_read: serves up to M abstract members (file/dir/ha
              "lha_input_stream_skip/read: succeed", "sprintf(\"%s%s\"): concatenation model"]
 
 
-def rsm(m, k, mode="functional", fail=False, timeout=600, tier="both"):
-    return dict(name="rsm.m%dk%d%s%s" % (m, k, ".fail" if fail else "", ".safe" if mode == "safety" else ""), src="rsm/rsm.c",
-                defines=["M=%d" % m, "K=%d" % k] + (["ALLOC_FAIL"] if fail else []), rename_defs={"lib/lha_file_header.c": ["lha_file_header_read"]},
+def rsm(m, k, mode="functional", fail=False, timeout=600, tier="both", dirs=False):
+    return dict(name="rsm.m%dk%d%s%s%s" % (m, k, ".dirs" if dirs else "", ".fail" if fail else "", ".safe" if mode == "safety" else ""), src="rsm/rsm.c",
+                defines=["M=%d" % m, "K=%d" % k] + (["ALLOC_FAIL"] if fail else []) + (["DIRS_ONLY"] if dirs else []), rename_defs={"lib/lha_file_header.c": ["lha_file_header_read"]},
                 mode=mode, unwind=8, unwindset={"harness.0": max(m, k) + 2, "harness.1": max(m, k) + 2, "harness.2": max(m, k) + 2, "harness.3": max(m, k) + 2, "harness.4": max(m, k) + 2, "do_decode.0": 4,
                                                 "lha_reader_free.0": m + 1, "extract_placeholder_symlink.0": m + 1, "model_next.0": m + 1},
-                units=RSM_UNITS, stubs=RSM_STUBS, timeout=timeout, mem_gb=6, tier=tier,
-                bounds="<= %d members, any %d operations from {next, read, check, extract, extract-as, is-fake} (one decode / one extract per entry), any directory policy%s; archive abandoned after the last operation" % (m, k, ", any single library allocation failing" if fail else ""))
+                units=RSM_UNITS, stubs=RSM_STUBS, timeout=timeout, mem_gb=6, tier=tier, optional_witnesses=dirs,
+                bounds=("<= %d directory members with paths from {a/, a/b/, c/, a/c/}, any %d operations from {next, extract}, any directory policy%s; archive abandoned after the last operation" if dirs else
+                        "<= %d members, any %d operations from {next, read, check, extract, extract-as, is-fake} (one decode / one extract per entry), any directory policy%s; archive abandoned after the last operation") % (m, k, ", any single library allocation failing" if fail else ""))
 
 
 def pos(r=3, timeout=300, tier="both"):
